@@ -68,6 +68,45 @@ def hand_anyall(x: fp.Real, y: fp.Real, xs: list[fp.Real], k: fp.Real):
     if a and not b:
         return 1
     return 0 if a else 2''',
+    'hand_fuse_while': '''@fp.fpy
+def hand_fuse_while(x: fp.Real, y: fp.Real, xs: list[fp.Real], k: fp.Real):
+    n = 0
+    while any([e > x for e in xs]) and n < 6:
+        x = x + 1
+        n = n + 1
+    return (x, n)''',
+    'hand_fuse_leak': '''@fp.fpy
+def hand_fuse_leak(x: fp.Real, y: fp.Real, xs: list[fp.Real], k: fp.Real):
+    a = any([x > 1 for x in xs])
+    b = all([y < 2 for y in xs])
+    if a and b:
+        return x
+    return x + y + 100''',
+    'hand_fuse_nested': '''@fp.fpy
+def hand_fuse_nested(x: fp.Real, y: fp.Real, xs: list[fp.Real], k: fp.Real):
+    ys = [e + y for e in xs]
+    first = any([e > x for e in ys])
+    rest = all([any([e > x for e in ys]) for x in xs])
+    if first:
+        return 1 if rest else 2
+    return 3 if rest else 4''',
+    'hand_fuse_short': '''@fp.fpy
+def hand_fuse_short(x: fp.Real, y: fp.Real, xs: list[fp.Real], k: fp.Real):
+    r = 0
+    if k < len(xs) and any([xs[k] > e for e in xs]):
+        r = 1
+    return r''',
+    'hand_gensym': '''@fp.fpy
+def hand_gensym(x: fp.Real, y: fp.Real, xs: list[fp.Real], k: fp.Real):
+    i11 = 10
+    i12 = 100
+    i13 = 1000
+    n = x
+    m = y
+    acc = 0
+    for e in xs:
+        acc = acc + e * i11 + i12 - i13
+    return acc + n + m''',
 }
 
 SMALL = [0.5, 1.0, 1.5, -0.75, 2.0, 3.0, 0.25, -2.0, float('nan'), float('inf')]
@@ -155,6 +194,36 @@ def iter_source_mutated(fn) -> bool:
     return walk(fn.ast.body)
 
 
+def fuse_in_short_circuit(fn) -> bool:
+    """Is some any/all over a comprehension a non-first operand of `and` / `or`?"""
+    from fpy2.ast import fpyast as A
+
+    def has_red(node):
+        if isinstance(node, (A.AnyOf, A.AllOf)) and isinstance(node.arg, A.ListComp):
+            return True
+        return any(has_red(c) for c in kids(node))
+
+    def kids(node):
+        out = []
+        if isinstance(node, A.Ast):
+            for sl in type(node).__mro__:
+                for f in getattr(sl, '__slots__', ()):
+                    if f in ('loc', 'fn', 'func', 'meta'):
+                        continue
+                    v = getattr(node, f, None)
+                    if isinstance(v, A.Ast):
+                        out.append(v)
+                    elif isinstance(v, (list, tuple)):
+                        out += [x for x in v if isinstance(x, A.Ast)]
+        return out
+
+    def walk(node):
+        if isinstance(node, (A.And, A.Or)) and any(has_red(a) for a in node.args[1:]):
+            return True
+        return any(walk(c) for c in kids(node))
+    return walk(fn.ast.body)
+
+
 def run(tier: str) -> int:
     rep = core.Report('C08', tier)
     nprog, nvec = (16, 16) if tier == 'quick' else (200, 40)
@@ -175,6 +244,7 @@ def run(tier: str) -> int:
                 if 'for ' in srcs[n] or 'while ' in srcs[n] or 'any(' in srcs[n] or 'all(' in srcs[n]:
                     progs.append((n, f, srcs[n]))
         shapes = {n: iter_source_mutated(f) for (n, f, _) in progs}
+        shorts = {n: fuse_in_short_circuit(f) for (n, f, _) in progs}
         pairs, timeouts = equiv.make_pairs(progs, configs(tier), rng, nvec, stats, vectors_fn=vectors)
         mm, skips, gen, dis = equiv.run_equiv(pairs)
     finally:
@@ -184,6 +254,8 @@ def run(tier: str) -> int:
         k = {}
         if 'elim_iter' in meta['config'] and shapes.get(meta['program']):
             k['shape'] = 'iter-source-mutated-in-body'
+        if 'fuse' in meta['config'] and shorts.get(meta['program']) and clause in ('model-raises', 'impl-raises'):
+            k['shape'] = 'fuse-hoists-from-short-circuit-operand'
         return k
     equiv.report(rep, pairs, timeouts, mm, skips, stats, extra_key=key,
                  precondition_error=lambda meta, err: 'STRICT' in meta['config'] and err == 'AssertionError')
